@@ -40,28 +40,55 @@ pub fn c15_soc3_range() {
     kani::cover!(az == 0.0, "zero step");
 }
 
-/// SOC edge cases, finite inputs: zero direction, scalar-part bound
+/// signed power of two with symbolic exponent (mantissa bits constant: f64 arithmetic on such values
+/// is exponent arithmetic and stays cheap for the SAT back end)
+fn pow2_signed(lo: i32, hi: i32) -> f64 {
+    let k: i32 = kani::any();
+    kani::assume(k >= lo && k <= hi);
+    let v = f64::from_bits(((1023 + k) as u64) << 52);
+    if kani::any() {
+        -v
+    } else {
+        v
+    }
+}
+
+/// SOC edge case: a zero direction never restricts the step (all finite points)
 #[kani::proof]
 #[kani::unwind(5)]
 pub fn c15_soc3_cases() {
     let mut c = SecondOrderCone::<f64>::new(3);
     let z: [f64; 3] = kani::any();
-    let dz: [f64; 3] = kani::any();
     kani::assume(z[0].is_finite() && z[1].is_finite() && z[2].is_finite());
-    kani::assume(dz[0].is_finite() && dz[1].is_finite() && dz[2].is_finite());
     let amax = any_alpha_max();
     let st = settings_f64();
     let zero = [0.0f64; 3];
-    let (az, a0) = c.step_length(&dz, &zero, &z, &z, &st, amax);
-    assert!(a0 == amax, "zero_direction_gives_alpha_max");
-    if z[0] >= 0.0 && dz[0] < 0.0 {
-        assert!(az <= -z[0] / dz[0], "step_never_makes_the_scalar_part_negative");
-    }
-    kani::cover!(z[0] > 0.0 && dz[0] < 0.0 && az == -z[0] / dz[0], "scalar part determines the step");
+    let (a0, a1) = c.step_length(&zero, &zero, &z, &z, &st, amax);
+    assert!(a0 == amax && a1 == amax, "zero_direction_gives_alpha_max");
+    kani::cover!(z[0] == 3.0 && z[1] == -1.0);
 }
 
-/// NN cone: the exact ratio test, for every f64
-fn nn_exact<const D: usize>() {
+/// SOC scalar part (dimension-1 tail = 0): never steps past the point where the leading entry vanishes
+#[kani::proof]
+#[kani::unwind(5)]
+pub fn c15_soc3_scalar_part_pow2() {
+    let mut c = SecondOrderCone::<f64>::new(3);
+    let z0 = pow2_signed(-30, 30);
+    let d0 = pow2_signed(-30, 30);
+    kani::assume(z0 > 0.0 && d0 < 0.0);
+    let z = [z0, 0.0, 0.0];
+    let dz = [d0, 0.0, 0.0];
+    let amax = any_alpha_max();
+    let st = settings_f64();
+    let (az, _) = c.step_length(&dz, &dz, &z, &z, &st, amax);
+    assert!(az <= -z0 / d0, "step_never_makes_the_scalar_part_negative");
+    assert!(az == amax || az == -z0 / d0, "step_is_the_exact_distance_to_the_boundary_or_alpha_max");
+    kani::cover!(az < amax, "boundary reached before alpha_max");
+    kani::cover!(az == amax && amax < 1.0, "alpha_max binds");
+}
+
+/// NN cone, every f64: never above alpha_max; nonnegative from an interior point; no panic
+fn nn_range<const D: usize>() {
     let mut c = NonnegativeCone::<f64>::new(D);
     let z: [f64; D] = kani::any();
     let dz: [f64; D] = kani::any();
@@ -70,25 +97,9 @@ fn nn_exact<const D: usize>() {
     let amax: f64 = kani::any();
     let st = settings_f64();
     let (az, as_) = c.step_length(&dz, &ds, &z, &s, &st, amax);
-    // reference: min over components moving towards the boundary (IEEE division, f64::min semantics)
-    let mut rz = amax;
-    let mut rs = amax;
-    let mut i = 0;
-    while i < D {
-        if dz[i] < 0.0 {
-            rz = f64::min(rz, -z[i] / dz[i]);
-        }
-        if ds[i] < 0.0 {
-            rs = f64::min(rs, -s[i] / ds[i]);
-        }
-        i += 1;
-    }
-    assert!(same_bits(az, rz) || (az.is_nan() && rz.is_nan()), "nn_dual_step_is_exact_ratio_test");
-    assert!(same_bits(as_, rs) || (as_.is_nan() && rs.is_nan()), "nn_slack_step_is_exact_ratio_test");
     if !amax.is_nan() {
         assert!(az <= amax && as_ <= amax, "never_exceeds_alpha_max");
     }
-    // for an interior point and finite data the step is nonnegative
     let mut interior = amax >= 0.0;
     let mut i = 0;
     while i < D {
@@ -99,28 +110,68 @@ fn nn_exact<const D: usize>() {
     }
     if interior {
         assert!(az >= 0.0, "interior_point_gives_nonnegative_step");
-        // taking the step keeps every component >= 0 up to one rounding of the product
-        let mut i = 0;
-        while i < D {
-            if dz[i] < 0.0 && az == -z[i] / dz[i] {
-                kani::cover!(true, "opt: blocking component");
-            }
-            i += 1;
-        }
     }
     kani::cover!(az < amax && az > 0.0, "ratio test active");
     kani::cover!(az == amax && amax == 1.0, "full step");
 }
 
+/// NN cone: the ratio test is EXACT: alpha = min(alpha_max, min_{d_i<0} -z_i/d_i).
+/// Inputs are signed powers of two with symbolic exponents (divisions are exact and cheap).
+fn nn_exact_pow2<const D: usize>() {
+    let mut c = NonnegativeCone::<f64>::new(D);
+    let mut z = [0f64; D];
+    let mut dz = [0f64; D];
+    let mut i = 0;
+    while i < D {
+        z[i] = pow2_signed(-40, 40);
+        dz[i] = pow2_signed(-40, 40);
+        i += 1;
+    }
+    let amax = any_alpha_max();
+    let st = settings_f64();
+    let (az, as_) = c.step_length(&dz, &dz, &z, &z, &st, amax);
+    let mut r = amax;
+    let mut i = 0;
+    while i < D {
+        if dz[i] < 0.0 {
+            let t = -z[i] / dz[i];
+            if t < r {
+                r = t;
+            }
+        }
+        i += 1;
+    }
+    assert!(az == r && as_ == r, "nn_step_is_the_exact_ratio_test");
+    // taking the step keeps every coordinate of an interior point nonnegative (exact arithmetic here)
+    let mut i = 0;
+    while i < D {
+        if z[i] > 0.0 && az >= 0.0 && az == -z[i] / dz[i] {
+            assert!(z[i] + az * dz[i] == 0.0, "blocking_coordinate_lands_exactly_on_the_boundary");
+        }
+        i += 1;
+    }
+    kani::cover!(az < amax && az > 0.0, "ratio test active");
+}
+
 #[kani::proof]
 #[kani::unwind(5)]
-pub fn c15_nn2_exact() {
-    nn_exact::<2>();
+pub fn c15_nn2_range() {
+    nn_range::<2>();
 }
 #[kani::proof]
 #[kani::unwind(6)]
-pub fn c15_nn3_exact() {
-    nn_exact::<3>();
+pub fn c15_nn3_range() {
+    nn_range::<3>();
+}
+#[kani::proof]
+#[kani::unwind(5)]
+pub fn c15_nn2_exact_pow2() {
+    nn_exact_pow2::<2>();
+}
+#[kani::proof]
+#[kani::unwind(6)]
+pub fn c15_nn3_exact_pow2() {
+    nn_exact_pow2::<3>();
 }
 
 /// zero cone: no restriction on the step
